@@ -194,7 +194,9 @@ func runC08(x *core.Ctx) {
 						if b--; b < 0 {
 							b = 0
 						}
-						if !v.RK.Scripted() {
+						if !v.RK.Scripted() || v.EK >= env.NErrKinds {
+							// (what an error says matters to what the decoder does with
+							// it, not to how the prefix before it was fragmented)
 							b = 0
 						}
 					}
